@@ -109,8 +109,13 @@ func genUpdate(w *World, info FnInfo, cur absList, wc func() *bool) *genUpd {
 		return GenSelector(info, ids)
 	}
 	emptyData := reflect.New(info.DataType).Interface()
-	shape := w.T.Choose(9, "update-shape")
+	shape := w.T.Choose(10, "update-shape")
 	switch shape {
+	case 9:
+		// no filter, one item without identifier: stored as it is when the update persists,
+		// "copied to all items" of the result when it does not
+		u.shape = "full-without-identifiers"
+		u.data = GenList(info, []reflect.Value{w.GenItem(info.ItemType, nil, 1, 2, nil)})
 	case 0:
 		u.shape = "full"
 		u.data = GenList(info, genItems(w, info, 1+w.T.Choose(4, "n"), 3, 4, wc))
